@@ -46,9 +46,20 @@ def main(argv=None) -> int:
         return 0 if ok else 1
     try:
         mod.run(ctx)
-    except Exception:
-        print("INTERNAL ERROR in harness:\n" + traceback.format_exc())
-        return 2
+    except Exception as e:
+        tb = traceback.format_exc()
+        # an exception that escapes from the IMPLEMENTATION (innermost frame under /repo) at a point where the
+        # harness did not expect one is a behaviour change of the code under test, not a defect of the harness
+        inner = traceback.extract_tb(e.__traceback__)[-1].filename if e.__traceback__ else ""
+        cause = getattr(e, "__cause__", None)
+        text = tb + (str(cause) if cause else "")
+        if framework.REPO.rstrip("/") + "/" in inner or ('File "%s/' % framework.REPO.rstrip("/")) in text:
+            ctx.failures.append({"what": "the implementation raised an exception where the check expects none",
+                                 "case": {"exception": type(e).__name__}, "detail": text[-3000:],
+                                 "replay": {"exception": type(e).__name__, "traceback": text[-3000:]}})
+        else:
+            print("INTERNAL ERROR in harness:\n" + tb)
+            return 2
     return framework.finish(ctx, proof, build_error, level=getattr(mod, "LEVEL", "proof"))
 
 
